@@ -727,6 +727,237 @@ def idle_family(ctx, fl, sc, good, ist):
     ist["planned"] = len(plans)
 
 
+# ---------------------------------------------------------------------------------------------------------------
+# Resource-exhaustion family: the accept loop must survive a failing accept()
+# ---------------------------------------------------------------------------------------------------------------
+# (1) Descriptor exhaustion for real: the daemon runs under a lowered RLIMIT_NOFILE; more stalled sessions than it has
+#     descriptors are opened and kept open (silent / partial header / header announcing a payload that never comes /
+#     half a payload); a well-formed client connects during the exhaustion (it waits in the listen backlog); then the
+#     stalled clients close.  Steps are logical: "exhausted" = the daemon's own `accept:` diagnostic appeared in its log.
+# (2) Fault injection: the daemon runs under `strace -e inject=accept,accept4:error=E:when=K`, so that its K-th accept
+#     fails with E (the connection stays in the backlog and is taken by the next accept); "(INJECTED)" in the strace
+#     log proves that the fault fired.
+# Verdict for both: daemon process alive, PING answered, the well-formed clients (the waiting one and later ones) get the
+# standalone result.  Watchdogs only make a scenario inconclusive (repeated once).
+
+STALL_KINDS = ("silent", "partial_header", "header_no_payload", "half_payload")
+INJECT_ERRNOS = ("EMFILE", "ENFILE", "ENOMEM", "EPROTO", "ENOBUFS", "ECONNABORTED", "EPERM")
+
+
+def _equal(r, g):
+    return (r.out, r.err_text(), r.exit_code) == (g["out"], g["err"], g["rc"])
+
+
+def _asan_env(fl, logbase):
+    return {"ASAN_OPTIONS": "log_path=%s:detect_leaks=0:exitcode=97:abort_on_error=0:allocator_may_return_null=1:"
+                            "hard_rss_limit_mb=3072:detect_stack_use_after_return=0" % logbase,
+            "UBSAN_OPTIONS": "print_stacktrace=1:halt_on_error=1:exitcode=97:log_path=%s" % logbase,
+            "PATH": fl.bin + os.pathsep + os.environ.get("PATH", "/usr/bin:/bin")}
+
+
+def _gone_key(dm, where):
+    rc = dm.returncode()
+    return "daemon-gone|%s|%s" % (where, "signal %d" % -rc if rc is not None and rc < 0 else "exit %s" % rc)
+
+
+def _san_report(ctx, ddir, desc):
+    log = ""
+    for f in sorted(os.listdir(ddir)):
+        if f.startswith("san."):
+            log += open(os.path.join(ddir, f), errors="replace").read()
+    if log.strip():
+        _violation(ctx, "sanitizer-report|" + str(crash_signature(log)), "sanitizer report of the daemon (%s)\n%s" % (desc, log[:4000]),
+                   {"sanitizer.log": log})
+
+
+def fd_exhaustion_scenario(ctx, fl, sc, no, limit, good, xst):
+    ddir = sc.sub("fdx%03d" % no)
+    desc = "daemon under RLIMIT_NOFILE=%d; %d stalled sessions kept open; a well-formed client connects meanwhile; stalled clients close" % (limit, limit + 4)
+    g1, g2 = good["count"], good["hello"]
+    for attempt in (0, 1):
+        dm = vc.Daemon(fl.nano_vmd, ddir, _asan_env(fl, os.path.join(ddir, "san")), nofile=limit)
+        socks = []
+        try:
+            if not dm.start():
+                continue
+            if not _equal(vc.exec_module(ddir, g2["blob"], 60.0), g2):
+                continue                                          # reference exec before any stress: harness trouble, not a verdict
+            # more stalled sessions than the process has descriptors; the surplus waits in the listen backlog (16)
+            trouble = None
+            rng = ctx.rng("fdx", no, attempt)
+            for i in range(limit + 4):
+                kind = STALL_KINDS[(i + no) % len(STALL_KINDS)]
+                try:
+                    s = vc.connect(ddir, 30.0)
+                except Exception as ex:
+                    trouble = "stalled connection %d: %s" % (i, ex)
+                    break
+                socks.append(s)
+                blob = g1["blob"]
+                data = {"silent": b"", "partial_header": vc.header(vc.LOAD_EXEC, len(blob))[:rng.randrange(1, 8)],
+                        "header_no_payload": vc.header(vc.LOAD_EXEC, 4096),
+                        "half_payload": vc.header(vc.LOAD_EXEC, len(blob)) + blob[:len(blob) // 2]}[kind]
+                rep = vc.Reply()
+                if data:
+                    vc._send(s, data, rep, 30.0)
+            # logical step: the daemon itself has reported a failing accept()
+            t0 = time.monotonic()
+            exhausted = False
+            while not trouble and time.monotonic() - t0 < 60:
+                if "accept:" in dm.stderr_text(400) or not dm.alive():
+                    exhausted = True
+                    break
+                time.sleep(0.005)
+            if trouble or not exhausted:
+                with _VLOCK:
+                    xst["fd_retries"] += 1
+                continue
+            # a well-formed client arrives during the exhaustion
+            res = {}
+            th = threading.Thread(target=lambda: res.setdefault("w1", vc.exec_module(ddir, g1["blob"], 120.0)), daemon=True)
+            th.start()
+            time.sleep(0.05)
+            for s in socks:
+                try:
+                    s.close()
+                except OSError:
+                    pass
+            socks = []
+            th.join(150)
+            w1 = res.get("w1")
+            alive = dm.alive()
+            w2 = vc.exec_module(ddir, g2["blob"], 60.0) if alive else None
+            pg = vc.ping(ddir, 30.0) if alive else None
+            alive = dm.alive()
+            if alive and (w1 is None or w1.timeout or w2.timeout or w2.exc or pg.timeout or pg.exc):
+                with _VLOCK:
+                    xst["fd_retries"] += 1                       # watchdog: not a verdict
+                continue
+            with _VLOCK:
+                xst["fd_scenarios"] += 1
+                xst["fd_limits"][str(limit)] = xst["fd_limits"].get(str(limit), 0) + 1
+                xst["fd_stalled_sessions"] += limit + 4
+                xst["wellformed_compared"] += 2
+            tail = dm.stderr_text(600)
+            if not alive:
+                _violation(ctx, _gone_key(dm, "descriptor-exhaustion"),
+                           "%s\nthe daemon process went away (rc=%s) when accept() failed for lack of descriptors; waiting client: %s\ndaemon log tail:\n%s"
+                           % (desc, dm.returncode(), w1.brief() if w1 else None, tail), {"daemon.log": tail})
+            else:
+                if not _equal(w1, g1):
+                    _violation(ctx, "wellformed!=standalone|exec|during-descriptor-exhaustion",
+                               "%s\nthe client that connected during the exhaustion did not get the standalone result: %s" % (desc, w1.brief()))
+                if not _equal(w2, g2):
+                    _violation(ctx, "wellformed!=standalone|exec|after-descriptor-exhaustion",
+                               "%s\na client that connected after the exhaustion did not get the standalone result: %s" % (desc, w2.brief()))
+                if not pg.pong:
+                    _violation(ctx, "ping-unanswered|after-descriptor-exhaustion", "%s\nPING unanswered: %s" % (desc, pg.brief()))
+            _san_report(ctx, ddir, desc)
+            return
+        finally:
+            for s in socks:
+                try:
+                    s.close()
+                except OSError:
+                    pass
+            dm.stop(grace=0.5)
+            try:
+                os.truncate(dm.log, 0)                           # the unmodified daemon logs every failed accept
+            except OSError:
+                pass
+    with _VLOCK:
+        xst["gave_up"] += 1
+
+
+def accept_inject_scenario(ctx, fl, sc, no, err, when, good, xst):
+    ddir = sc.sub("inj%03d" % no)
+    slog = os.path.join(ddir, "strace.log")
+    desc = "daemon under strace, accept() #%d fails with %s (injected)" % (when, err)
+    g = good["hello"]
+    for attempt in (0, 1):
+        if os.path.exists(slog):
+            os.unlink(slog)
+        dm = vc.Daemon(fl.nano_vmd, ddir, _asan_env(fl, os.path.join(ddir, "san")),
+                       prefix=["strace", "-f", "-o", slog, "-e", "trace=accept,accept4",
+                               "-e", "inject=accept,accept4:error=%s:when=%d" % (err, when), "--"])
+        try:
+            if not dm.start():
+                continue
+            reps = []
+            for i in range(when + 3):                          # Daemon.start used at least one accept itself
+                reps.append(vc.exec_module(ddir, g["blob"], 60.0))
+                if not dm.alive():
+                    break
+            alive = dm.alive()
+            pg = vc.ping(ddir, 30.0) if alive else None
+            alive = dm.alive()
+            fired = "(INJECTED)" in (open(slog, errors="replace").read() if os.path.exists(slog) else "")
+            if not fired or (alive and (pg.timeout or pg.exc or any(r.timeout or r.exc for r in reps))):
+                with _VLOCK:
+                    xst["inject_retries"] += 1
+                continue
+            with _VLOCK:
+                xst["inject_scenarios"] += 1
+                xst["inject_errnos"][err] = xst["inject_errnos"].get(err, 0) + 1
+                xst["wellformed_compared"] += len(reps)
+            tail = dm.stderr_text(600)
+            if not alive:
+                _violation(ctx, _gone_key(dm, "accept-failure-injected"),
+                           "%s\nthe daemon process went away (rc=%s) after the injected accept() failure; clients so far: %s\ndaemon log tail:\n%s"
+                           % (desc, dm.returncode(), [r.brief()["exit"] for r in reps], tail), {"daemon.log": tail})
+            else:
+                bad = [r for r in reps if not _equal(r, g)]
+                if bad:
+                    _violation(ctx, "wellformed!=standalone|exec|around-injected-accept-failure",
+                               "%s\n%d of %d well-formed clients did not get the standalone result: %s" % (desc, len(bad), len(reps), bad[0].brief()))
+                if not pg.pong:
+                    _violation(ctx, "ping-unanswered|after-injected-accept-failure", "%s\nPING unanswered: %s" % (desc, pg.brief()))
+            _san_report(ctx, ddir, desc)
+            return
+        finally:
+            dm.stop(grace=0.5)
+    with _VLOCK:
+        xst["gave_up"] += 1
+
+
+def strace_usable(fl, sc):
+    """strace present, ptrace permitted and injection syntax understood: `true` must see an injected failure."""
+    import shutil
+    if not shutil.which("strace"):
+        return False
+    log = os.path.join(sc.sub("strace-probe"), "p.log")
+    r = sh(["strace", "-o", log, "-e", "trace=getpid", "-e", "inject=getpid:error=EPERM:when=1", "python3", "-c", "import os; os.getpid()"],
+           cpu=30)
+    try:
+        return r.rc == 0 and "(INJECTED)" in open(log, errors="replace").read()
+    except OSError:
+        return False
+
+
+def exhaustion_family(ctx, fl, sc, good, xst):
+    jobs = []
+    limits = (40, 64) if ctx.quick() else (24, 32, 40, 48, 64, 96, 128)
+    for i, lim in enumerate(limits):
+        jobs.append(("fd", i, lim))
+    xst["strace_usable"] = strace_usable(fl, sc)
+    if xst["strace_usable"]:
+        rng = ctx.rng("inject-plans")
+        errs = list(INJECT_ERRNOS)
+        if ctx.quick():
+            errs = ["ENFILE", "ENOMEM", rng.choice(["EPROTO", "ENOBUFS", "ECONNABORTED", "EPERM", "EMFILE"])]
+        for i, e in enumerate(errs):
+            for w in ((3,) if ctx.quick() else (2, 3, 6)):
+                jobs.append(("inj", len(jobs), e, w))
+    xst["planned"] = len(jobs)
+
+    def one(jb):
+        if jb[0] == "fd":
+            fd_exhaustion_scenario(ctx, fl, sc, jb[1], jb[2], good, xst)
+        else:
+            accept_inject_scenario(ctx, fl, sc, jb[1], jb[2], jb[3], good, xst)
+    pmap(one, jobs, workers=4)
+
+
 def make_sequences(ctx, n, alphabet, weights):
     seqs = []
     for s in range(n):
@@ -886,13 +1117,22 @@ def _run(ctx, fl, sc, lanes):
     ist = {"scenarios": 0, "sessions": 0, "with_aborts": 0, "control": 0, "by_kind": {}, "min_session_s": 1e9, "samples": [],
            "not_served_retries": 0, "resized": 0, "gave_up": 0, "idle_exits_observed": 0}
 
+    xst = {"fd_scenarios": 0, "fd_limits": {}, "fd_stalled_sessions": 0, "fd_retries": 0, "inject_scenarios": 0, "inject_errnos": {},
+           "inject_retries": 0, "wellformed_compared": 0, "gave_up": 0}
+
+    def exhaustion_guarded():
+        try:
+            exhaustion_family(ctx, fl, sc, good, xst)
+        except BaseException as ex:
+            errs.append(ex)
+
     def idle_guarded():
         try:
             idle_family(ctx, fl, sc, good, ist)
         except BaseException as ex:
             errs.append(ex)
 
-    ths = [threading.Thread(target=guarded, args=(i,)) for i in range(nl)] + [threading.Thread(target=idle_guarded)]
+    ths = [threading.Thread(target=guarded, args=(i,)) for i in range(nl)] + [threading.Thread(target=idle_guarded), threading.Thread(target=exhaustion_guarded)]
     for t in ths:
         t.start()
     for t in ths:
@@ -913,13 +1153,17 @@ def _run(ctx, fl, sc, lanes):
                 "the extern-calling module was served %d times but a nano_cop launch was seen only %d times: the co-process path "
                 "was not exercised" % (stats["extern_sessions"], stats["extern_sessions_with_cop_launch"]))
     ctx.require(ctx.violations or stats["pairs"] == len(pairs), "not all stateful pairs were executed (%d of %d)" % (stats["pairs"], len(pairs)))
+    ctx.require(ctx.violations or xst["fd_scenarios"] >= 2,
+                "resource-exhaustion family: fewer than two descriptor-exhaustion scenarios reached the failing accept() (%s)" % xst)
+    ctx.require(ctx.violations or not xst.get("strace_usable") or xst["inject_scenarios"] >= 2,
+                "resource-exhaustion family: strace is usable but fewer than two injected accept() failures fired (%s)" % xst)
     ctx.require(ctx.violations or (ist["with_aborts"] >= 2 and ist["control"] >= 1),
                 "idle-timeout family: too few scenarios in which the long sessions outlived the timeout (%s)" % ist)
     ctx.require(ctx.violations or ist["idle_exits_observed"] >= 1,
                 "idle-timeout family: the control daemon never shut down by itself, so the idle timeout was not shown to be armed")
     samples = [{"sequence": list(seq), "connections": conc} for _, seq, conc in seqs[:5]]
     return ctx.finish({
-        "evaluations": stats["sequences"] + stats["bursts"] + ist["scenarios"],
+        "evaluations": stats["sequences"] + stats["bursts"] + ist["scenarios"] + xst["fd_scenarios"] + xst["inject_scenarios"],
         "distinct_nontrivial": len(stats["distinct"]),
         "rule": "distinct symbol sequences (tuples over the alphabet below, length 1..12) executed against a live daemon and followed "
                 "by the post-sequence checks; every sequence contains at least one client behaviour and is followed by a liveness, "
@@ -940,6 +1184,7 @@ def _run(ctx, fl, sc, lanes):
         "hostile_modules": {k: len(v) for k, v in sorted(hostile.items())},
         "fuel": FUEL, "daemon_lanes": nl,
         "idle_timeout_family": ist,
+        "resource_exhaustion_family": xst,
         "samples": samples,
     }, assumptions=[
         "expected values of well-formed modules come from `nano_vm x.nvm` (asan flavor), also run with the same NLVERIF_FUEL to show "
@@ -949,6 +1194,9 @@ def _run(ctx, fl, sc, lanes):
         "a session that stays to listen must end with an error reply, an exit code or a closed connection; a client-side watchdog "
         "(60 s) is treated as inconclusive after one re-run, never as a violation",
         "SHUTDOWN is not part of the alphabet (it legitimately stops the daemon)",
+        "resource-exhaustion family: descriptor exhaustion is produced for real under a lowered RLIMIT_NOFILE ('exhausted' = the daemon's "
+        "own accept diagnostic appeared in its log); other accept() errors are injected with strace (fired = '(INJECTED)' in the strace "
+        "log; skipped and reported if strace/ptrace is unusable); watchdog expiry repeats a scenario once and is never a verdict",
         "idle-timeout family: the long module is sized by wall-clock calibration (standalone >= 4x the timeout) and a scenario only "
         "counts if every long session lasted >= 2x the timeout; a daemon that exits when no session is in service is correct and "
         "never flagged; attempts in which a client received no byte at all are repeated, not judged",
